@@ -89,11 +89,21 @@ class Effects:
             types[params[0]] = f.cls
         if f.is_classmethod and params:
             env[params[0]] = set()
+        local_names = {n.id for n in ast.walk(f.node) if isinstance(n, ast.Name) and isinstance(n.ctx, ast.Store)} | set(params)
+        for n in ast.walk(f.node):
+            if isinstance(n, ast.Global):
+                local_names -= set(n.names)
 
         def roots(e: ast.expr | None) -> set[str]:
             if e is None:
                 return set()
             if isinstance(e, ast.Name):
+                if e.id not in env and e.id not in local_names:
+                    # a module-level mutable container (a memo table, a registry): state that outlives the call
+                    g = f.module.constants.get(e.id)
+                    if g is not None and (isinstance(g, (ast.Dict, ast.List, ast.Set)) or (
+                            isinstance(g, ast.Call) and getattr(g.func, "id", getattr(g.func, "attr", "")) in ("dict", "list", "set", "defaultdict", "OrderedDict", "Counter", "WeakKeyDictionary"))):
+                        return {f"<module state {e.id}>"}
                 return set(env.get(e.id, set()))
             if isinstance(e, (ast.Attribute, ast.Subscript)):
                 r0 = roots(e.value)
